@@ -29,6 +29,10 @@ CHECKS['C05'] = dict(level='other',
    text='Deductive: the four refusal branches of ConnectionState.do_command answer BAD, dispatch nothing and leave _session/_selected untouched; do_select clears first, selects exactly the requested name (read-only for EXAMINE) and leaves none selected on failure; do_close always answers OK and deselects. Bounded: IMAPConnection._run_state (AUTHENTICATE/IDLE dispatch around the gate) and the composition are checked exhaustively for all command sequences of length <= 2 over the complete command set after six state prefixes against the RFC 3501 automaton, with data dumps around every refused command.',
    note='_run_state is outside the verifier subset (loop/try nest): bounded only; do_* methods are abstract inside do_command.',
    ref='6 C05')
+CHECKS['C03'] = dict(level='proof',
+   text='The byte-level kernel is proved from the real source: _find_lines yields a partition of [0,len) (and terminates), find_any, _split_lines (header ++ body = all lines), get_raw (slice spanning the non-empty groups, empty when none), a lemma over these contracts (bytes(content) = data and HEADER followed by TEXT = data), _get_partial (= full[o:o+n]), dict append stores the content parsed from this literal, copy/move share the content object. A bounded run appends byte strings to the real server and fetches them back in every form of the statement; it is reported separately.',
+   note='MessageHeader/MessageBody are assumed to keep the line groups they are given and LiteralString to write len(payload)+payload (covered by the bounded run only); nested MIME part ranges are bounded only; maildir (re-serialisation through the email package) is not covered; one known finding (BODYSTRUCTURE leaf size includes the header) is recorded, not repaired.',
+   ref='6 C03')
 NOT_YET = {}
 def main():
     props = [json.loads(l) for l in open(os.path.join(HERE, 'properties.jsonl'))]
